@@ -345,7 +345,13 @@ func TestCheck(t *testing.T) {
 			break
 		}
 		var kind, detail string
-		r.Guard(idx, 30*time.Second, "hang|"+c.Carrier+"/"+c.Sec+"|"+bucket(c.Sizes), c.String(), c, func() {
+		limit := 30 * time.Second
+		if c.Carrier == "dns" {
+			// the DNS carrier costs real CPU per exchange (~200 payload bytes each): megabytes take
+			// tens of seconds on a loaded machine
+			limit += time.Duration(sum(c.Sizes)/10000) * time.Second
+		}
+		r.Guard(idx, limit, "hang|"+c.Carrier+"/"+c.Sec+"|"+bucket(c.Sizes), c.String(), c, func() {
 			kind, detail, _ = execute(t, c)
 		})
 		record(r, c, kind, detail)
